@@ -197,12 +197,12 @@ REGISTRY["C19"] = {
              "occurring >=2 times or >=2 records; bit vector of >=2 bits. distinct = hash of text+boundaries / bits."),
     "assumptions": ["out-of-range lookups/retrieves are unspecified: only 'no panic' is required"],
     "jobs": lambda tier: [
-        job("index", "c19", shards=16, timeout=1800, cases=q(tier, 120, 1500), max_len=q(tier, 2000, 100000),
+        job("index", "c19", shards=16, timeout=2700, cases=q(tier, 120, 500), max_len=q(tier, 2000, 40000),
             max_bits=50000),
         # one context with a >=25-level code tree needs ~1M symbols: release build, few cases
         job("deep-context", "c19", flavour="release", shards=q(tier, 2, 16), timeout=1800, cases=q(tier, 1, 3),
             max_len=q(tier, 1000000, 1600000), deep=1),
-    ] + ([job("index-release", "c19", flavour="release", shards=16, timeout=3000, cases=4000, max_len=100000,
+    ] + ([job("index-release", "c19", flavour="release", shards=16, timeout=3000, cases=1200, max_len=100000,
               max_bits=50000),
           san_job("index-asan", "c19", "asan", cases=200, max_len=3000, max_bits=20000),
           miri_job("miri", "text", programs=64, schedules=1)] if tier == "thorough" else []),
@@ -236,7 +236,7 @@ REGISTRY["C12"] = {
              ">=1 split/padded batch; run with coalesced appends or fsyncs. distinct = hash of batch end offsets / run."),
     "assumptions": ["a complete batch before the cut must be returned (the title's 'loses only the tail')"],
     "jobs": lambda tier: [
-        job("format", "c12", shards=16, timeout=1200, cases=q(tier, 6, 120), cuts=q(tier, 400, 4000)),
+        job("format", "c12", shards=16, timeout=2700, cases=q(tier, 6, 40), cuts=q(tier, 400, 1500)),
         _c12_dur_job(tier),
     ],
     "floors": lambda tier: {"distinct_nontrivial": 40, "batches.split_across_boundary": 50,
@@ -413,7 +413,7 @@ def _e1(prop, technique, level_text, rule_tail, floors, quick_h=10):
              san_job("threads-tsan", "e3", "tsan", focus="C07", runs=40, scale=1),
              san_job("stepper-asan", "e1", "asan", focus="C07", histories=40, steps=120),
              miri_job("miri-memtable", "memtable", programs=8, schedules=12)] if p == "C07" and tier == "thorough" else []) + (
-            [job("tamper", "c04t", shards=16, timeout=3000, cases=q(tier, 3, 60), budget=q(tier, 250, 3000))] if p == "C04" else []) + (
+            [job("tamper", "c04t", shards=16, timeout=3000, cases=q(tier, 3, 30), budget=q(tier, 250, 1500))] if p == "C04" else []) + (
             [job("collector", "c05gc", shards=16, timeout=3000, max_len=q(tier, 8, 12), random=q(tier, 2000, 300000))] if p == "C05" else [])))(prop, quick_h),
         "floors": floors,
     }
@@ -570,11 +570,11 @@ REGISTRY["C09"] = {
                     "an appended suffix that is a well-formed record is data, not damage"],
     "exhaustive": lambda tier, counters: False,
     "jobs": lambda tier: [
-        job("files", "c09", shards=16, timeout=3000, sst_cases=q(tier, 24, 1500), log_cases=q(tier, 24, 1500),
-            mani_cases=q(tier, 24, 1500), store_cases=q(tier, 4, 200), budget=q(tier, 600, 3000),
+        job("files", "c09", shards=16, timeout=3000, sst_cases=q(tier, 24, 500), log_cases=q(tier, 24, 500),
+            mani_cases=q(tier, 24, 500), store_cases=q(tier, 4, 80), budget=q(tier, 600, 3000),
             store_budget=q(tier, 300, 1500)),
     ] + ([job("files-release", "c09", flavour="release", shards=16, timeout=3000, sst_cases=1500, log_cases=1500,
-              mani_cases=1500, store_cases=200, budget=3000, store_budget=1500),
+              mani_cases=1500, store_cases=100, budget=3000, store_budget=1500),
           san_job("files-asan", "c09", "asan", sst_cases=60, log_cases=60, mani_cases=60, store_cases=6, budget=600,
                   store_budget=300)] if tier == "thorough" else []),
     "floors": lambda tier: {"distinct_nontrivial": 500, "sst.damages.final-block": 50000, "sst.damages.index-block": 50000,
